@@ -203,6 +203,9 @@ func execOp(ctx context.Context, b *el.Broker, o *cOp, sh *concShared) {
 				opts = append(opts, el.WithPipelineRegistrationPolicy(el.DenyOverwrite))
 			}
 			err = b.RegisterPipeline(el.Pipeline{PipelineID: el.PipelineID(o.PID), EventType: el.EventType(o.Typ), NodeIDs: nids}, opts...)
+			for i := range nids {
+				nids[i] = "scribbled-over-by-the-caller" // the slice is the caller's again once the call has returned
+			}
 		}
 		setRet(o, sh, err == nil, false, 0)
 	case "rmpipe":
@@ -575,7 +578,7 @@ func runConc(rc *RunCtx, prop string) {
 		var w []int // regpipe rmpipe rmpan rmnode regnode setthr getthr setthrs getthrs isany reopen send badregpipe
 		switch prop {
 		case "C07":
-			w = []int{6, 1, 1, 0, 1, 0, 0, 0, 0, 0, 0, 8, 0}
+			w = []int{6, 1, 1, 0, 1, 1, 0, 1, 0, 0, 0, 8, 0} // threshold setters: they create the event type's graph, as a first registration does
 		case "C05":
 			w = []int{2, 1, 1, 1, 0, 0, 0, 0, 0, 1, 0, 8, 6}
 		default:
